@@ -208,6 +208,23 @@ def corpus(ctx):
         one_case(ctx, p, r, b, "corpus.large-ref-labels")
 
 
+def singleton_axis_corpus(ctx):
+    """a 2-D scene in which the two backends disagree (diagonal contact of one label; two labels face to face), stored as a
+    3-D volume with an axis of length one: the default backend for three axes is cc3d whatever their lengths"""
+    s2 = np.zeros((5, 6), np.uint8)
+    s2[0, 0] = 1
+    s2[1, 1] = 1          # diagonal contact, same label
+    s2[3, 1:3] = 1
+    s2[3, 3:5] = 2        # two labels face to face
+    s2[0, 5] = 2
+    t2 = np.roll(s2, 1, axis=0)
+    for ax in (0, 1, 2):
+        a, b = np.expand_dims(s2, ax), np.expand_dims(t2, ax)
+        for backend in (None, "cc3d", "scipy"):
+            ctx.count("singleton_axis_volume")
+            one_case(ctx, a, b, backend, f"corpus.singleton-axis-{ax}")
+
+
 def many_components(ctx):
     """more than 255 components on one side, few on the other (label dtype must fit both)"""
     a = np.zeros((41, 41), np.uint8)
@@ -224,6 +241,7 @@ def many_components(ctx):
 
 def run(ctx):
     corpus(ctx)
+    singleton_axis_corpus(ctx)
     many_components(ctx)
     exhaustive(ctx, (2, 3) if ctx.quick else (3, 3))
     if not ctx.quick:
